@@ -22,7 +22,7 @@ pub fn def() -> PropDef {
         shrink: Shrink::None,
         render,
         rule: "{LOCAL, PROXY} x {unspec, stream, dgram} x every address value of UA (four families) x 6 fixed TLV lists; one address per family x every raw type byte 0..=255 (value lengths 0, 1, 300) and every TLV list of length <= 2 over 15 type bytes (12 named types through the enum, raw 0x00 0xEE 0xFF) x value lengths {0,1,2,255,256,257}, length-3 lists over a reduced menu, and lists sized to exactly 65534 / 65535 payload bytes; each built through with_addresses(..).write_tlv(..) and through new(..).write_payload(addresses).write_payload(tlv); output compared with the independent encoder, with the reference v2 verdict, and with what the real parser returns (command, transport, addresses, bytes, TLV sequence when a family is specified); non-trivial = every case; distinct = hash of the case",
-        assumptions: &["TLV values are position-dependent byte patterns, not arbitrary bytes", "registered TLV type codes are copied from the specification text (PP2_TYPE_*)"],
+        assumptions: &["TLV values are position-dependent byte patterns, plus every string up to length 5/6 over {00,01,02,03,FF,own type code}; not arbitrary bytes", "registered TLV type codes are copied from the specification text (PP2_TYPE_*)"],
     }
 }
 
@@ -43,24 +43,44 @@ pub const TYPES: [(Type, u8); 12] = [
 
 #[derive(Clone, Debug)]
 pub struct TlvSpec {
+    /// bit 0: raw type byte (else index into the named `Type` table); bit 1: explicit value bytes follow the length
     pub mode: u8,
     pub kind: u8,
     pub len: usize,
+    pub explicit: Option<Vec<u8>>,
+}
+
+impl TlvSpec {
+    pub fn named(kind: u8, len: usize) -> TlvSpec {
+        TlvSpec { mode: 0, kind, len, explicit: None }
+    }
+    pub fn raw(kind: u8, len: usize) -> TlvSpec {
+        TlvSpec { mode: 1, kind, len, explicit: None }
+    }
+    pub fn with_value(raw: bool, kind: u8, value: &[u8]) -> TlvSpec {
+        TlvSpec { mode: 2 | raw as u8, kind, len: value.len(), explicit: Some(value.to_vec()) }
+    }
 }
 
 impl TlvSpec {
     pub fn code(&self) -> u8 {
-        if self.mode == 0 {
+        if self.mode & 1 == 0 {
             TYPES[self.kind as usize % 12].1
         } else {
             self.kind
         }
     }
     pub fn value(&self, index: usize) -> Vec<u8> {
-        (0..self.len).map(|i| ((i * 5 + index * 17 + 3) % 256) as u8).collect()
+        match &self.explicit {
+            Some(v) => v.clone(),
+            None => (0..self.len).map(|i| ((i * 5 + index * 17 + 3) % 256) as u8).collect(),
+        }
     }
     pub fn encode(&self, out: &mut Vec<u8>) {
         out.extend_from_slice(&[self.mode, self.kind, (self.len >> 16) as u8, (self.len >> 8) as u8, self.len as u8]);
+        if let Some(v) = &self.explicit {
+            out.extend_from_slice(v);
+        }
     }
 }
 
@@ -87,8 +107,21 @@ pub fn decode(case: &[u8]) -> Option<Case> {
         if r.len() < 5 {
             return None;
         }
-        tlvs.push(TlvSpec { mode: r[0], kind: r[1], len: ((r[2] as usize) << 16) | ((r[3] as usize) << 8) | r[4] as usize });
+        let len = ((r[2] as usize) << 16) | ((r[3] as usize) << 8) | r[4] as usize;
+        let mode = r[0];
+        let kind = r[1];
         r = &r[5..];
+        let explicit = if mode & 2 != 0 {
+            if r.len() < len {
+                return None;
+            }
+            let v = r[..len].to_vec();
+            r = &r[len..];
+            Some(v)
+        } else {
+            None
+        };
+        tlvs.push(TlvSpec { mode, kind, len, explicit });
     }
     Some(Case { command, transport, addr, tlvs })
 }
@@ -109,7 +142,7 @@ fn render(case: &[u8]) -> Value {
             "command": if c.command == 0 { "LOCAL" } else { "PROXY" },
             "transport": c.transport,
             "addresses": c.addr.describe(),
-            "tlvs": c.tlvs.iter().map(|t| format!("type {:#04x}{} len {}", t.code(), if t.mode == 0 { " (named)" } else { "" }, t.len)).collect::<Vec<_>>(),
+            "tlvs": c.tlvs.iter().map(|t| format!("type {:#04x}{} len {}", t.code(), if t.mode & 1 == 0 { " (named)" } else { "" }, t.len)).collect::<Vec<_>>(),
         }),
         None => json!({"raw": hex(case)}),
     }
@@ -163,7 +196,7 @@ fn check(c: &Case, acc: &mut Acc) {
     // path 1: with_addresses + write_tlv
     let mut b: std::io::Result<Builder> = Ok(Builder::with_addresses(Version::Two | command, protocol, addresses));
     for (t, v) in c.tlvs.iter().zip(values.iter()) {
-        b = b.and_then(|b| if t.mode == 0 { b.write_tlv(TYPES[t.kind as usize % 12].0, v) } else { b.write_tlv(t.kind, v) });
+        b = b.and_then(|b| if t.mode & 1 == 0 { b.write_tlv(TYPES[t.kind as usize % 12].0, v) } else { b.write_tlv(t.kind, v) });
     }
     let out1 = b.and_then(|b| b.build());
     // path 2: new + payloads
@@ -175,7 +208,7 @@ fn check(c: &Case, acc: &mut Acc) {
     };
     let mut b: std::io::Result<Builder> = Builder::new(command | Version::Two, afp_real).write_payload(addresses);
     for (t, v) in c.tlvs.iter().zip(values.iter()) {
-        b = b.and_then(|b| if t.mode == 0 { b.write_payload((TYPES[t.kind as usize % 12].0, v.as_slice())) } else { b.write_payload(v2::TypeLengthValue::new(t.kind, v)) });
+        b = b.and_then(|b| if t.mode & 1 == 0 { b.write_payload((TYPES[t.kind as usize % 12].0, v.as_slice())) } else { b.write_payload(v2::TypeLengthValue::new(t.kind, v)) });
     }
     let out2 = b.and_then(|b| b.build());
     acc.eval(2);
@@ -288,12 +321,12 @@ pub fn tlv_menu(lens: &[usize]) -> Vec<TlvSpec> {
     let mut m = Vec::new();
     for k in 0..12u8 {
         for &l in lens {
-            m.push(TlvSpec { mode: 0, kind: k, len: l });
+            m.push(TlvSpec { mode: 0, kind: k, len: l, explicit: None });
         }
     }
     for raw in [0x00u8, 0xee, 0xff] {
         for &l in lens {
-            m.push(TlvSpec { mode: 1, kind: raw, len: l });
+            m.push(TlvSpec { mode: 1, kind: raw, len: l, explicit: None });
         }
     }
     m
@@ -337,21 +370,77 @@ pub fn list_cases(thorough: bool) -> Vec<Vec<u8>> {
         // every raw type byte, alone and after a named item
         for k in 0..=255u8 {
             for l in [0usize, 1, 300] {
-                cases.push(encode(1, 1, &a, &[TlvSpec { mode: 1, kind: k, len: l }]));
+                cases.push(encode(1, 1, &a, &[TlvSpec { mode: 1, kind: k, len: l, explicit: None }]));
             }
-            cases.push(encode(0, 2, &a, &[TlvSpec { mode: 0, kind: k % 12, len: 2 }, TlvSpec { mode: 1, kind: k, len: 1 }]));
+            cases.push(encode(0, 2, &a, &[TlvSpec { mode: 0, kind: k % 12, len: 2, explicit: None }, TlvSpec { mode: 1, kind: k, len: 1, explicit: None }]));
         }
         // totals of exactly 65533, 65534 and 65535 payload bytes
         let size = a.block().len();
         for total in [65533usize, 65534, 65535] {
             let room = total - size;
-            cases.push(encode(1, 1, &a, &[TlvSpec { mode: 1, kind: 0xee, len: room - 3 }]));
-            cases.push(encode(1, 1, &a, &[TlvSpec { mode: 0, kind: 4, len: 300 }, TlvSpec { mode: 0, kind: 0, len: room - 303 - 3 }]));
-            cases.push(encode(0, 2, &a, &[TlvSpec { mode: 0, kind: 3, len: 0 }, TlvSpec { mode: 1, kind: 0, len: room - 3 - 3 - 3 - 1 }, TlvSpec { mode: 0, kind: 11, len: 1 }]));
+            cases.push(encode(1, 1, &a, &[TlvSpec { mode: 1, kind: 0xee, len: room - 3, explicit: None }]));
+            cases.push(encode(1, 1, &a, &[TlvSpec { mode: 0, kind: 4, len: 300, explicit: None }, TlvSpec { mode: 0, kind: 0, len: room - 303 - 3, explicit: None }]));
+            cases.push(encode(0, 2, &a, &[TlvSpec { mode: 0, kind: 3, len: 0, explicit: None }, TlvSpec { mode: 1, kind: 0, len: room - 3 - 3 - 3 - 1, explicit: None }, TlvSpec { mode: 0, kind: 11, len: 1, explicit: None }]));
         }
         // 65535-byte single value only fits the family without an address block when nothing else is written
     }
     cases
+}
+
+/// TLV values over a tiny alphabet that contains 00, FF, small numbers and the TLV's own type code: every
+/// string up to length n, for every named type and a few raw type bytes (all 256 in the thorough tier).
+pub struct SmallValues {
+    pub n: usize,
+    pub all_raw: bool,
+}
+
+impl SmallValues {
+    fn kinds(&self) -> Vec<(bool, u8)> {
+        let mut k: Vec<(bool, u8)> = (0..12u8).map(|i| (false, i)).collect();
+        if self.all_raw {
+            k.extend((0..=255u8).map(|b| (true, b)));
+        } else {
+            k.extend([0x00u8, 0x03, 0x05, 0x20, 0xee, 0xff].map(|b| (true, b)));
+        }
+        k
+    }
+}
+
+impl Universe for SmallValues {
+    fn name(&self) -> String {
+        "U7-small-values".into()
+    }
+    fn bound(&self) -> Value {
+        json!({"mode": "one TLV whose value is every string over {00,01,02,03,FF,own type code,a,.} of length <= n, written after an IPv4 block", "n": self.n, "kinds": self.kinds().len()})
+    }
+    fn units(&self) -> usize {
+        self.kinds().len()
+    }
+    fn roots(&self) -> u64 {
+        self.kinds().len() as u64
+    }
+    fn run_unit(&self, u: usize, f: &mut dyn FnMut(&[u8])) {
+        let (raw, kind) = self.kinds()[u];
+        let code = if raw { kind } else { TYPES[kind as usize].1 };
+        let sigma = [0x00u8, 0x01, 0x02, 0x03, 0xff, code, b'a', b'.'];
+        let addr = representative_addresses()[1].clone();
+        let mut value: Vec<u8> = Vec::new();
+        fn rec(value: &mut Vec<u8>, left: usize, sigma: &[u8; 8], emit: &mut dyn FnMut(&[u8])) {
+            emit(value);
+            if left == 0 {
+                return;
+            }
+            for &b in sigma {
+                value.push(b);
+                rec(value, left - 1, sigma, emit);
+                value.pop();
+            }
+        }
+        rec(&mut value, self.n, &sigma, &mut |v: &[u8]| {
+            let case = encode(1, 1, &addr, &[TlvSpec::with_value(raw, kind, v)]);
+            f(&case);
+        });
+    }
 }
 
 pub fn run(run: &Run) {
@@ -359,12 +448,13 @@ pub fn run(run: &Run) {
     let heads: Vec<[u8; 2]> = (0..2u8).flat_map(|c| (0..3u8).map(move |t| [c, t])).collect();
     let tails = vec![
         tail(&[]),
-        tail(&[TlvSpec { mode: 0, kind: 3, len: 1 }]),
-        tail(&[TlvSpec { mode: 0, kind: 0, len: 3 }, TlvSpec { mode: 1, kind: 0xee, len: 0 }]),
-        tail(&[TlvSpec { mode: 0, kind: 5, len: 300 }]),
-        tail(&[TlvSpec { mode: 1, kind: 0xff, len: 2 }, TlvSpec { mode: 0, kind: 4, len: 257 }, TlvSpec { mode: 0, kind: 11, len: 1 }]),
-        tail(&[TlvSpec { mode: 0, kind: 1, len: 0 }, TlvSpec { mode: 0, kind: 1, len: 0 }]),
+        tail(&[TlvSpec { mode: 0, kind: 3, len: 1, explicit: None }]),
+        tail(&[TlvSpec { mode: 0, kind: 0, len: 3, explicit: None }, TlvSpec { mode: 1, kind: 0xee, len: 0, explicit: None }]),
+        tail(&[TlvSpec { mode: 0, kind: 5, len: 300, explicit: None }]),
+        tail(&[TlvSpec { mode: 1, kind: 0xff, len: 2, explicit: None }, TlvSpec { mode: 0, kind: 4, len: 257, explicit: None }, TlvSpec { mode: 0, kind: 11, len: 1, explicit: None }]),
+        tail(&[TlvSpec { mode: 0, kind: 1, len: 0, explicit: None }, TlvSpec { mode: 0, kind: 1, len: 0, explicit: None }]),
     ];
     run.explore(&Decorated { inner: AddrValues { per_group: thorough, with_unix: true }, heads, tails });
+    run.explore(&SmallValues { n: run.tier.pick(5, 6), all_raw: thorough });
     run.explore(&ListUniverse { name: "U7-tlv-lists".into(), what: "one address per family x every TLV list of length <= 2 over the full menu, length-3(-4) lists over a reduced menu, totals of exactly 65533 / 65534 / 65535 payload bytes".into(), cases: list_cases(thorough) });
 }
